@@ -33,6 +33,7 @@ func (Area) Gen(r *rand.Rand, tier string, emit func(string)) {
 		emit(l)
 	}
 	genPipe(r, tier, emit)
+	genNf(r, tier, emit)
 	n := 3000
 	if tier == "thorough" {
 		n = 30000
